@@ -67,10 +67,12 @@ LEAN_FILES = [
 RULE = (
     "families of (array, axes_groups) that differ from a random base in exactly one attribute "
     "(one dualness, one block size, one charge label, one missing sector (two different ones), "
-    "sector order, symmetry, groups, sub-index dualness / sub-index tables under an identical "
-    "fused table, arrays derived by conj from already-hashed ones); every ordering of <= 4 cached "
+    "sector order, symmetry, groups, sub-index dualness / tables / order / extents under an identical "
+    "fused table — for a leg fused once and for a leg fused twice, where the members agree on the "
+    "first-level sub-index tables and extents and differ only at the second level —, arrays derived "
+    "by conj from already-hashed ones); every ordering of <= 4 cached "
     "calls over a family under SYMMRAY_FUSE_CACHE_MAXSIZE in {0,1,2,8192} (subprocesses); random "
-    "mixed fuse/tensordot(fused)/reshape/unfuse histories; forced schedules of 2-4 threads over "
+    "mixed fuse/tensordot(fused)/reshape/unfuse(all levels) histories; forced schedules of 2-4 threads over "
     "the five atomic dict operations; thread stress; random nested mode-context programs. "
     "Non-trivial: a history with at least one hit, one eviction or one key pair differing in a "
     "single attribute; a schedule in which two threads are inside the call at the same time; "
@@ -110,7 +112,7 @@ TRUSTED_EXTRA = [
 MAXSIZES_QUICK = [0, 1, 2, 8192, -1]
 MAXSIZES_THOROUGH = [0, 1, 2, 3, -1, 8192]
 MARK = "C15RESULT "
-OPS = ("fuse", "tdot", "reshape", "fuse_unfuse")
+OPS = ("fuse", "tdot", "reshape", "fuse_unfuse", "unfuse_deep")
 
 
 # =============================================================================== members
@@ -161,6 +163,10 @@ def build_member(desc):
     if desc.get("prefuse"):
         ac._fuseinfos.clear()  # a cold call: building a member must not depend on the history
         x = x.fuse(*[tuple(g) for g in desc["prefuse"]])
+        if desc.get("prefuse2"):
+            # fuse once more: the first index becomes a fused index of depth 2
+            ac._fuseinfos.clear()
+            x = x.fuse(*[tuple(g) for g in desc["prefuse2"]])
         if desc.get("sort_blocks"):
             x = x.copy_with(blocks=dict(sorted(x.blocks.items())))
     groups = tuple(tuple(g) for g in desc["groups"])
@@ -206,7 +212,8 @@ def rand_base(rng, sym, ndim, fermi=False, prefuse=False):
         indices = []
         for _k in range(ndim):
             cs = sorted(rng.sample(small, 2))
-            indices.append(dict(cm=[[_jc(c), rng.randint(1, 3)] for c in cs], dual=rng.random() < 0.5))
+            indices.append(dict(cm=[[_jc(c), rng.randint(1, 3 if ndim < 5 else 2)] for c in cs],
+                                dual=rng.random() < 0.5))
         if len({ix["dual"] for ix in indices}) == 1:
             indices[rng.randrange(ndim)]["dual"] ^= True
         sector = tuple(_tup(rng.choice(ix["cm"])[0]) for ix in indices)
@@ -216,7 +223,8 @@ def rand_base(rng, sym, ndim, fermi=False, prefuse=False):
             break
     secs = [[_jc(c) for c in s] for s in secs]
     rng.shuffle(secs)
-    nd = ndim - 1 if prefuse else ndim
+    depth = int(prefuse)  # 0: plain, 1: first index fused once, 2: fused twice
+    nd = ndim - depth
     a, b = sorted(rng.sample(range(nd), 2))
     groups = [[a, b]] if rng.random() < 0.6 else [[b, a]]
     rest = [k for k in range(nd) if k not in (a, b)]
@@ -229,7 +237,8 @@ def rand_base(rng, sym, ndim, fermi=False, prefuse=False):
             groups.append([2])
     return dict(
         sym=sym, indices=indices, charge=_jc(charge), sectors=secs, groups=groups,
-        prefuse=[[0, 1]] if prefuse else None, derive=None, seed=rng.randrange(10**6),
+        prefuse=[[0, 1]] if prefuse else None, prefuse2=[[0, 1]] if depth == 2 else None,
+        sort_blocks=depth == 2, derive=None, seed=rng.randrange(10**6),
         fermi=fermi, tag="base",
     )
 
@@ -296,6 +305,11 @@ def family_of(rng, base):
         c0, c1 = d["indices"][0]["cm"], d["indices"][1]["cm"]
         for q in range(min(len(c0), len(c1))):  # swap the sizes position by position (labels stay)
             c0[q][1], c1[q][1] = c1[q][1], c0[q][1]
+        # order of the (innermost) sub-indices: the two legs swapped, sectors accordingly
+        d = variant("suborder")
+        d["indices"][0], d["indices"][1] = d["indices"][1], d["indices"][0]
+        for s_ in d["sectors"]:
+            s_[0], s_[1] = s_[1], s_[0]
         # same fused table, same sub-indices, different extents: the two sub-sectors (A0,B0) and
         # (A1,B1) have the same size p*q and (when the symmetry allows) the same fused charge;
         # one member stores only the first, the other only the second
@@ -326,10 +340,13 @@ def family_of(rng, base):
 
 def make_families(rng, tier):
     fams = []
-    plan = [("Z2", 3, False, False), ("U1", 3, False, False), ("Z2", 4, False, True)]
+    # last entry: 0 plain, 1 first index fused once, 2 fused twice (then the sub-index variants
+    # differ only at the second level: first-level tables and extents agree)
+    plan = [("Z2", 3, False, False), ("U1", 3, False, False), ("Z2", 4, False, True), ("Z2", 5, False, 2)]
     if tier == "thorough":
         plan += [("Z2Z2", 3, False, False), ("U1U1", 3, False, False), ("Z4", 3, False, False),
-                 ("Z2", 3, True, False), ("U1", 4, True, True), ("Z2Z2", 4, False, True)]
+                 ("Z2", 3, True, False), ("U1", 4, True, True), ("Z2Z2", 4, False, True),
+                 ("U1", 5, False, 2), ("Z2", 5, True, 2)]
     else:
         plan.append(rng.choice([("Z2Z2", 3, False, False), ("Z2", 3, True, False), ("U1", 4, False, True)]))
     for sym, ndim, fermi, prefuse in plan:
@@ -358,8 +375,31 @@ def _canon(obj):
     if obj is None or isinstance(obj, (str, float)):
         return obj
     if hasattr(obj, "indices") and hasattr(obj, "blocks"):
-        return ("arr", ser.canon_array(ser.enc_array(obj), drop_zero=False))
+        return ("arr", _canon_array_fast(obj))
     return ("repr", type(obj).__name__, repr(obj))
+
+
+def _canon_array_fast(x):
+    """value view of an array (same content as ser.canon_array(drop_zero=False)): pending signs
+    multiplied in, blocks sorted by sector, nested index tables; block data by their bytes —
+    all data here are small integers in floating point, so equal values have equal bytes once
+    -0.0 is normalised."""
+    import numpy as np
+    from .. import ser
+
+    fermi = bool(getattr(x, "fermionic", False))
+    phases = x.phases if fermi else {}
+    blocks = []
+    for sec in sorted(x.blocks):
+        b = np.asarray(x.blocks[sec])
+        b = np.ascontiguousarray(b * phases.get(sec, 1) + 0.0)
+        blocks.append((sec, b.shape, str(b.dtype), hashlib.sha1(b.tobytes()).hexdigest()))
+    return (
+        ser.sym_name(x.symmetry), fermi,
+        tuple(ser.canon_index(ser.enc_index(ix)) for ix in x.indices),
+        x.charge, tuple(blocks),
+        tuple((int(o.label), bool(o.dual)) for o in x.oddpos) if fermi else None,
+    )
 
 
 def _digest(obj):
@@ -376,6 +416,13 @@ def run_op(x, xc, groups, op):
             r = x.fuse(*groups)
         elif op == "fuse_unfuse":
             r = x.fuse(*groups).unfuse_all()
+        elif op == "unfuse_deep":
+            # fuse, then undo every level of fusing down to the innermost legs
+            r = x.fuse(*groups)
+            for _ in range(8):
+                if not any(ix.subinfo is not None for ix in r.indices):
+                    break
+                r = r.unfuse_all()
         elif op == "tdot":
             g = groups[0]
             r = sr.tensordot(x, xc, axes=(g, g), mode="fused", preserve_array=True)
